@@ -38,6 +38,13 @@ behaves like a fresh one (`C20_freeze_irrelevant`) -/
 theorem freeze_is_noop_ok : Extracted.Cache.freezeBody = Cache.freezeBody := by decide
 theorem cache_fields_ok : Extracted.Cache.cacheFields = Cache.cacheFields := by decide
 
+/-- nothing is evicted (no `clear`/`delete`, no capacity constant) and no cache state lives outside the cache value (the
+only package-level variable is the builtin): the cache never forgets a key and two caches share nothing
+(`C20_entries_monotone`) -/
+theorem no_eviction_ok : Extracted.Cache.entryRemovals = Cache.entryRemovals ∧
+    Extracted.Cache.packageConsts = Cache.packageConsts := by decide
+theorem no_shared_state_ok : Extracted.Cache.packageVars = Cache.packageVars := by decide
+
 /-- everything else about the two functions' synchronisation skeletons: unchanged since the model was written -/
 theorem get_skeleton_ok : Extracted.Cache.getSkeleton = Expected.Cache.getSkeleton := rfl
 theorem once_skeleton_ok : Extracted.Cache.onceSkeleton = Expected.Cache.onceSkeleton := rfl
